@@ -8,6 +8,7 @@ pub mod model;
 pub mod payload;
 pub mod rng;
 pub mod runner;
+pub mod selftest;
 pub mod streams;
 pub mod world;
 
@@ -22,13 +23,33 @@ fn main() {
     hashseam::init();
     locks::install_panic_hook();
     let args: Vec<String> = std::env::args().collect();
-    if args.len() < 3 {
+    if args.len() < 2 {
         usage();
+    }
+    if args[1] == "logrun" {
+        // gsim logrun <engine-key> <tag> <seed> <tier> <from> <to>: one line per run (event-log digest)
+        let Some(e) = check::engine_by_key(&args[2]) else { usage() };
+        let seed: u64 = args[4].parse().unwrap();
+        let tier = Tier::parse(&args[5]).unwrap();
+        let (from, to): (u64, u64) = (args[6].parse().unwrap(), args[7].parse().unwrap());
+        for i in from..to {
+            println!("{}", e.log_run(&args[3], seed, tier, i));
+        }
+        std::process::exit(0);
+    }
+    if args[1] == "selftest-determinism" {
+        std::process::exit(selftest::determinism());
+    }
+    if args[1] == "selftest-watchdog" {
+        std::process::exit(selftest::watchdog());
     }
     if args[1] == "worker" {
         // gsim worker <engine-key> <tag> <seed> <tier> <offset> <stride> <runs> <cap_s> <outfile>
         let Some(e) = check::engine_by_key(&args[2]) else { usage() };
         std::process::exit(runner::worker_main(e.as_ref(), &args[3..]));
+    }
+    if args.len() < 3 {
+        usage();
     }
     let mut tier = match std::env::var("VERIF_TIER").as_deref() {
         Ok("thorough") => Tier::Thorough,
